@@ -45,7 +45,7 @@ Fixpoint skipComment_s (r : list N) (o : nat) : bool * pos :=
   match r with
   | [] => (true, mkpos o [])
   | c :: r1 =>
-      if c =? 0 then (true, mkpos o r)
+      if c =? 0 then skipComment_s r1 (S o)             (* peek() = 0 but not at the end: l.offset++ *)
       else if c =? 92 then                               (* '\\': l.offset++ ; switch l.peek() *)
         match r1 with
         | [] => skipComment_s r1 (S o)
@@ -177,9 +177,13 @@ Fixpoint scanString_s (r : list N) (i : nat) (start p0 : pos) (instr : bool) : o
             else if (e =? 34) || (e =? 47) || (e =? 92) || (e =? 98) || (e =? 102) || (e =? 110) || (e =? 114) || (e =? 116)
             then scanString_s r2 (i + 2) start p0 instr
             else if e =? 40 then                         (* '(' *)
-              if negb instr then Some (KTok "tokStringStart", p0, None, true)
+              if negb instr then
+                match slice start p0 with                (* l.token = l.source[start:l.offset] *)
+                | Some t => Some (KTok "tokStringStart", p0, Some t, true)
+                | None => None
+                end
               else if (i =? po p0)%nat then              (* i == l.offset+1 after the i++ *)
-                Some (KTok "tokStringQuery", mkpos (i + 2) r2, None, false)
+                Some (KTok "tokStringQuery", mkpos (i + 2) r2, Some [92; 40], false)
               else
                 match slice start (mkpos i r) with
                 | Some t => Some (KTok "tokString", mkpos i r, Some t, instr)
@@ -198,13 +202,13 @@ Fixpoint scanString_s (r : list N) (i : nat) (start p0 : pos) (instr : bool) : o
           | Some t => Some (KTok "tokString", mkpos i r, Some t, instr)
           | None => None
           end
-        else Some (KTok "tokStringEnd", mkpos (S i) r1, None, false)
+        else Some (KTok "tokStringEnd", mkpos (S i) r1, Some [34], false)
       else scanString_s r1 (S i) start p0 instr
   end.
 Definition scanString (start p0 : pos) (instr : bool) : option sres := scanString_s (pr p0) (po p0) start p0 instr.
 
 (* utf8.DecodeRuneInString on the bytes starting with the lead byte: Some n = a valid encoding of n bytes
-   (string(r) is then those n bytes), None = RuneError with size 1 (string(r) = EF BF BD) *)
+   (l.token = those n source bytes), None = RuneError with size 1 (l.token = the one source byte) *)
 Definition cont (c : N) : bool := (128 <=? c) && (c <=? 191).
 Definition utf8_len (s : list N) : option nat :=
   match s with
@@ -231,7 +235,6 @@ Definition utf8_len (s : list N) : option nat :=
       else None
   | [] => None
   end.
-Definition rune_error : list N := [239; 191; 189].
 
 (* the keywords map *)
 Fixpoint lookup_kw (t : list N) (kws : list (string * string)) : option string :=
@@ -348,7 +351,7 @@ Definition Lex (l : lexer) : option (tk * lexer) :=
             | Some n =>
                 let p2 := mkpos (po p1 + (n - 1)) (skipn (n - 1) (pr p1)) in
                 if (n - 1 <=? List.length (pr p1))%nat then fin_slice l (KChar ch) pch p2 else None
-            | None => fin l (KChar ch) p1 (Some rune_error) false
+            | None => fin_slice l (KChar ch) pch p1                        (* RuneError, size 1: the byte itself *)
             end
           else single
     end.
@@ -387,18 +390,25 @@ Definition feedback (k : tk) (stk : list bool) (l : lexer) : list bool * lexer :
 (* goyacc's yylex1 takes every value <= 0 as the end of input: eof (-1) and a NUL byte returned as int(ch) *)
 Definition is_end (k : tk) : bool := match k with KEOF => true | KChar c => c =? 0 | KTok _ => false end.
 
-Fixpoint lex_all (fuel : nat) (l : lexer) (stk : list bool) : option (list ltok) :=
-  match fuel with
-  | O => None
-  | S f =>
-      match Lex l with
-      | None => None
-      | Some (k, l1) =>
-          let t := mkltok k (ltoken l1) (po (lp l1)) (linstr l1) (lex_error l1) in
-          if is_end k then Some [t]
-          else let '(stk', l2) := feedback k stk l1 in
-               match lex_all f l2 stk' with Some ts => Some (t :: ts) | None => None end
-      end
-  end.
+(* F = what the parser does to the lexer between two Lex calls, with its own state S *)
+Section Driver.
+  Variable S0 : Type.
+  Variable F : tk -> S0 -> lexer -> S0 * lexer.
+  Fixpoint lex_with (fuel : nat) (l : lexer) (st : S0) : option (list ltok) :=
+    match fuel with
+    | O => None
+    | S f =>
+        match Lex l with
+        | None => None
+        | Some (k, l1) =>
+            let t := mkltok k (ltoken l1) (po (lp l1)) (linstr l1) (lex_error l1) in
+            if is_end k then Some [t]
+            else let '(st', l2) := F k st l1 in
+                 match lex_with f l2 st' with Some ts => Some (t :: ts) | None => None end
+        end
+    end.
+End Driver.
+
+Definition lex_all := lex_with (list bool) feedback.
 
 Definition tokenize (src : list N) : option (list ltok) := lex_all (S (List.length src)) (newLexer src) [].
